@@ -36,7 +36,7 @@ Qed.
 (* C03/C05: a preconditioned IWP transition has non-zero scalings and c_revert returns Some *)
 Definition K0 : @cond Qc := iwp_transition_1d 2 1 (qc 1 2) (qc 3 2).
 Example C03_backward_kernel_theorems_not_vacuous :
-  (forall i, i < 3 -> vget (c_tl K0) i <> f0) /\ (forall i, i < 3 -> vget (c_to K0) i <> f0) /\
+  (forall i, (i < 3)%nat -> vget (c_tl K0) i <> f0) /\ (forall i, (i < 3)%nat -> vget (c_to K0) i <> f0) /\
   match c_revert minv 3 3 1 K0 rv0 with Some _ => true | None => false end = true.
 Proof.
   split; [|split].
